@@ -44,7 +44,7 @@ def check(prog, res, tier):
         it.user['s'] = s
         return it.call_function(vfi, [s], {})
 
-    def validated(p):
+    def validated(p, want=True):
         """a fact on the path: luhn(s[0:n-1]) == s[n-1:n] holds"""
         s = p.interp.user['s']
         src = s.segs[0].src
@@ -59,7 +59,7 @@ def check(prog, res, tier):
             return isinstance(x, SeqV) and len(x.segs) == 1 and isinstance(x.segs[0], Sl) and x.segs[0].src is src and \
                 st.decide_eq0(x.segs[0].lo - n + 1) is True and st.decide_eq0(x.segs[0].hi - n) is True
         for kind, truth, data in p.facts:
-            if kind == 'seq-eq' and truth:
+            if kind == 'seq-eq' and truth is want:
                 a, b = data['a'], data['b']
                 if (is_luhn_of(a, body) and last(b)) or (is_luhn_of(b, body) and last(a)):
                     return True
@@ -77,6 +77,13 @@ def check(prog, res, tier):
                                  dropped[0].node if dropped else None)]
             if p.outcome == 'raise' and validated(p):
                 return [definite('a number whose check digit matches is rejected')]
+            if p.outcome == 'raise' and not validated(p, want=False):
+                # a digit string (two digits or more) is refused although its check digit was never found to differ: among the
+                # numbers refused on this path are some whose digit is right (what add_check_digit produces for them)
+                exc = p.value
+                return [definite('validate_check_digit refuses a digit string on a path on which the recomputed digit was not found '
+                                 'to differ from the supplied one: numbers with a correct check digit are rejected',
+                                 getattr(exc, 'raise_node', None) or exc.node)]
             return []
         ob = runs.judge(oid, title, func_where(vfi), 'calculate_check_digit(card_number[0:-1]) == card_number[-1]', chk,
                         rule=f'C15.a.{"O" if drop else "normal"}')
